@@ -671,7 +671,11 @@ let c11 s b =
                | NConst c -> let v = int_of_f32 c in v = 0 || v = 0x80000000
                | _ -> (match Hashtbl.find_opt tbl i with Some (Some iv) -> let z f = let v = int_of_f32 f in v = 0 || v = 0x80000000 in z iv.lo || z iv.hi | _ -> false) in
              (* a zero BOUND of either argument is enough: atan2 jumps by 2 pi with the sign of a zero first argument *)
-             List.exists (fun nd -> match nd with NBinary (bo, l, r) -> bo = BAtan && (zero (int_of_nat l) || zero (int_of_nat r)) | _ -> false) arena) in
+             (* ... and the bit-hashing opcodes see the sign of a zero operand (the recorded finding hash-of-signed-zero) *)
+             List.exists (fun nd -> match nd with
+               | NBinary (bo, l, r) -> (bo = BAtan || bo = BMix) && (zero (int_of_nat l) || zero (int_of_nat r))
+               | NUnary (u, a) -> u = URand && zero (int_of_nat a)
+               | _ -> false) arena) in
       if atan00 then Printf.bprintf b "iv ?" else begin
       Printf.bprintf b "iv";
       if List.exists (fun o -> o = None) outs then Printf.bprintf b " panic"
